@@ -584,6 +584,9 @@ func (c *Ctx) rangedTableEntries(k, v ssa.Value, pos string) ([]Builtin, bool) {
 			return x
 		}
 	}
+	if es, ok := c.rangedStructTableEntries(strip(k), strip(v)); ok {
+		return es, true
+	}
 	ke, ok1 := strip(k).(*ssa.Extract)
 	ve, ok2 := strip(v).(*ssa.Extract)
 	if !ok1 || !ok2 || ke.Tuple != ve.Tuple || ke.Index != 1 || ve.Index != 2 {
@@ -619,4 +622,108 @@ func (c *Ctx) rangedTableEntries(k, v ssa.Value, pos string) ([]Builtin, bool) {
 		}
 	}
 	return out, len(out) > 0
+}
+
+// rangedStructTableEntries: key and value are two fields of the element of a locally built slice of structs that is
+// being ranged over (`for _, e := range []struct{name string; fn interface{}}{{"abs", funAbs}, ...} { reg.Store(e.name, e.fn) }`).
+func (c *Ctx) rangedStructTableEntries(k, v ssa.Value) ([]Builtin, bool) {
+	// field access on the ranged element: ssa.Field on a loaded struct, or a load of FieldAddr(IndexAddr)
+	elemField := func(x ssa.Value) (arr *ssa.Alloc, fld int, ok bool) {
+		switch y := x.(type) {
+		case *ssa.Field:
+			if u, isU := y.X.(*ssa.UnOp); isU {
+				if ia, isIA := u.X.(*ssa.IndexAddr); isIA {
+					if a := localArrayLiteral(ia.X); a != nil {
+						return a, y.Field, true
+					}
+				}
+			}
+		case *ssa.UnOp:
+			if fa, isFA := y.X.(*ssa.FieldAddr); isFA {
+				if ia, isIA := fa.X.(*ssa.IndexAddr); isIA {
+					if a := localArrayLiteral(ia.X); a != nil {
+						return a, fa.Field, true
+					}
+				}
+				// the element copied into the range variable first: `f := arr[i]; f.name`
+				if cell, isCell := fa.X.(*ssa.Alloc); isCell {
+					var src ssa.Value
+					n := 0
+					for _, ref := range *cell.Referrers() {
+						if st, ok := ref.(*ssa.Store); ok && st.Addr == ssa.Value(cell) {
+							src = st.Val
+							n++
+						}
+					}
+					if n == 1 {
+						if u, isU := src.(*ssa.UnOp); isU {
+							if ia, isIA := u.X.(*ssa.IndexAddr); isIA {
+								if a := localArrayLiteral(ia.X); a != nil {
+									return a, fa.Field, true
+								}
+							}
+						}
+					}
+				}
+			}
+		}
+		return nil, 0, false
+	}
+	ak, fk, ok1 := elemField(k)
+	av, fv, ok2 := elemField(v)
+	if !ok1 || !ok2 || ak != av {
+		return nil, false
+	}
+	keys := map[int64]string{}
+	vals := map[int64]ssa.Value{}
+	poss := map[int64]string{}
+	for _, ref := range *ak.Referrers() {
+		ia, ok := ref.(*ssa.IndexAddr)
+		if !ok || ia.X != ssa.Value(ak) {
+			continue
+		}
+		idx, isK := constIntArg(ia.Index)
+		if !isK {
+			continue
+		}
+		for _, r2 := range *ia.Referrers() {
+			fa, ok := r2.(*ssa.FieldAddr)
+			if !ok {
+				continue
+			}
+			for _, r3 := range *fa.Referrers() {
+				st, ok := r3.(*ssa.Store)
+				if !ok || st.Addr != ssa.Value(fa) {
+					continue
+				}
+				if fa.Field == fk {
+					if kc, ok := st.Val.(*ssa.Const); ok && kc.Value != nil && kc.Value.Kind() == constant.String {
+						keys[idx] = constant.StringVal(kc.Value)
+						poss[idx] = c.P.InstrPos(st)
+					}
+				}
+				if fa.Field == fv {
+					val := st.Val
+					if mi, ok := val.(*ssa.MakeInterface); ok {
+						val = mi.X
+					}
+					vals[idx] = val
+				}
+			}
+		}
+	}
+	var out []Builtin
+	for idx, name := range keys {
+		val, ok := vals[idx]
+		if !ok {
+			return nil, false
+		}
+		e := Builtin{Name: name, Val: val, Pos: poss[idx]}
+		e.Fn = fnValue(val)
+		out = append(out, e)
+	}
+	if len(out) == 0 || len(out) != len(vals) {
+		return nil, false
+	}
+	return out, true
 }
